@@ -14,6 +14,7 @@
 (*   gate     a run of test/update seen from outside (C01)                 *)
 (*   pep      text written for {pep440_version}   (C15)                    *)
 (*   search   the compiled search pattern on a line (C07)                  *)
+(*   resolve  start version by tag scope, junk inertness, freshness (C09)  *)
 (*   calinfo  cal_info(day) = nine fields         (C14, C02)               *)
 (*   weekpat  is_valid_week_pattern(P)            (C14)                    *)
 (*   mono     renderings of two consecutive days  (C14)                    *)
@@ -121,6 +122,24 @@ SearchVerdict(e) ==
   ELSE IF e.hit = <<-1, -1>> THEN <<"search:misses-the-text", want>>
   ELSE <<"search:span", want>>
 
+\* where a run starts from, with and without the non-matching tags, and what it announces (C09)
+\*  e.cfgver : config value   e.all : tags of all branches   e.branch : tags reachable from HEAD (both in the VCS's order)   e.scope   e.ignore
+\*  e.show : version `show` prints (<<0>> if it failed)   e.show_clean : the same with every non-matching tag removed
+\*  e.old : start version logged by `update`  e.new : announced version (<<0>> none)  e.exit : exit code of the update   e.exit_clean
+InList(x, ts) == \E q \in 1..Len(ts) : ts[q] = x
+ResolveVerdict(e) ==
+  LET lst == IF e.scope = "branch" THEN e.branch ELSE e.all
+      start == IF e.ignore THEN e.cfgver ELSE ResolveCurrent(e.cfgver, lst, e.scope, e.P, e.today)
+      valid == ValidTags(lst, e.P, e.today) IN
+  IF e.show = None THEN <<"resolve:show-fails", 0>>
+  ELSE IF VerCmp(e.show, start) # 0 THEN <<"resolve:start-is-not-the-greatest-in-scope", start>>
+  ELSE IF ~(e.show = e.cfgver \/ InList(e.show, valid)) THEN <<"resolve:start-is-not-one-of-the-candidates", start>>
+  ELSE IF e.show_clean # e.show THEN <<"resolve:non-matching-tags-change-the-start", e.show_clean>>
+  ELSE IF (e.exit = 0) # (e.exit_clean = 0) THEN <<"resolve:non-matching-tags-change-the-outcome", e.exit_clean>>
+  ELSE IF e.exit = 0 /\ e.old # None /\ VerCmp(e.old, start) # 0 THEN <<"resolve:update-starts-elsewhere", start>>
+  ELSE IF e.exit = 0 /\ InList(e.new, e.all) THEN <<"resolve:new-version-equals-existing-tag", e.new>>
+  ELSE Good
+
 CalVerdict(e) ==
   LET c == CalInfo(e.n) bad == {f \in CalFieldSet : c[f] # e.c[f]} IN
   IF bad = {} THEN Good ELSE <<"calinfo", [f \in bad |-> <<c[f], e.c[f]>>]>>
@@ -148,6 +167,7 @@ Verdict(e) ==
     [] e.ev = "gate"    -> GateVerdict(e)
     [] e.ev = "pep"     -> PepVerdict(e)
     [] e.ev = "search"  -> SearchVerdict(e)
+    [] e.ev = "resolve" -> ResolveVerdict(e)
     [] e.ev = "calinfo" -> CalVerdict(e)
     [] e.ev = "weekpat" -> WeekPatVerdict(e)
     [] e.ev = "mono"    -> MonoVerdict(e)
